@@ -1083,13 +1083,9 @@ Definition record_name (k : str) (d : doc) : option str :=
   | _ => None
   end.
 
-(* distinct names in order of first appearance *)
-Fixpoint names_in_order (names : list str) (seen : list str) : list str :=
-  match names with
-  | [] => []
-  | n :: r => if existsb (str_eqb n) seen then names_in_order r seen
-              else n :: names_in_order r (n :: seen)
-  end.
+(* distinct names in order of first appearance (left to right) *)
+Definition names_in_order (names : list str) : list str :=
+  fold_left (fun acc n => if existsb (str_eqb n) acc then acc else acc ++ [n]) names [].
 
 Fixpoint all_some {A} (l : list (option A)) : option (list A) :=
   match l with
@@ -1113,7 +1109,7 @@ Definition partition_by_key (recs : list doc) (k : str) : option doc :=
               (map (fun nm =>
                       (nm, DArr (map (fun nr => DObj false (erase_key k (d_members (snd nr))))
                                      (filter (fun nr => str_eqb nm (fst nr)) tagged))))
-                   (names_in_order names [])))
+                   (names_in_order names)))
     end
   end.
 
